@@ -7,6 +7,7 @@ import logging
 import os
 import sys
 from collections.abc import Mapping, Sequence, Set
+from typing import Any
 logging.disable(logging.CRITICAL)
 
 from haiway import MISSING, Missing, State
@@ -95,6 +96,36 @@ def updated_sweep():
     return out
 
 
+class Overlap(State):           # overlapping union: a converting alternative first, a permissive one later
+    content: Sequence[int] | Any = ()
+    pair: tuple[int, ...] | Set[int] | Any = ()
+
+
+def history_independence():
+    """What an instance holds depends on the arguments of *its* construction alone, never on which values other
+    instances of the class were built from before (validators keep no history)."""
+    out = []
+    first = Overlap(content=[1, 2], pair=[1])
+    snap = (strict(first.content), strict(first.pair))
+    for primer in ("text", object(), 3.5, {"k": 1}, None):
+        Overlap(content=primer, pair=primer)                 # values only the permissive alternative accepts
+        lst = [1, 2]
+        again = Overlap(content=lst, pair=[1])
+        if (strict(again.content), strict(again.pair)) != snap or again != first:
+            out.append(f"Overlap(content=[1, 2]) built after an instance holding {primer!r} stores {again.content!r} / {again.pair!r}, "
+                       f"the same call before stored {first.content!r} / {first.pair!r}")
+            break
+        lst.append(3)
+        if strict(again.content) != snap[0]:
+            out.append("mutating the list passed to the constructor changed the state (after other instances were built)")
+            break
+        upd = first.updated(content=[1, 2])
+        if strict(upd.content) != snap[0]:
+            out.append(f"updated(content=[1, 2]) after priming stores {upd.content!r}")
+            break
+    return out
+
+
 def problems():
     out = []
     lst, stt, dct = [1, 2], {"a"}, {"k": 1}
@@ -137,6 +168,7 @@ def problems():
     if s.n != 5:
         out.append("a failed update changed the original")
     out += updated_sweep()
+    out += history_independence()
     p = Plain(n=2, seq=[1], inner=Inner(x=3))
     for name, f in (("copy", copy.copy), ("deepcopy", copy.deepcopy)):
         try:
